@@ -348,6 +348,14 @@ func checkExpansionResult(c *Ctx, which string, w *refgraph.World, g *refgraph.G
 		c.Fail(Failure{Kind: "oracle", Sig: "C08:spurious-error" + sfx, What: "every $ref is resolvable but ExpandSpec fails: " + res.Err.Error(), Case: cs})
 		return
 	}
+	if cs != nil {
+		switch which {
+		case "C02":
+			corrExpansion(c, which, w, g, in, res.Out, o, cs, cyclic, []string{"exp", "world"})
+		case "C03":
+			corrExpansion(c, which, w, g, in, res.Out, o, cs, cyclic, []string{"cuts"})
+		}
+	}
 	if which == "C02" || which == "both" {
 		if msg, ok := checkMeaning(w, in, res.Out, 6); !ok {
 			c.Fail(Failure{Kind: "oracle", Sig: "C02:meaning-changed" + sfx, What: msg, Case: cs, Impl: clip(res.Out.Text())})
@@ -392,6 +400,105 @@ func checkExpansionResult(c *Ctx, which string, w *refgraph.World, g *refgraph.G
 			}
 		}
 	}
+}
+
+// corrExpansion hands the abstracted input and output of one real expansion to the Lean driver:
+//   - xcheck: the proved-sound checker (checkExp / checkWorld / checkCuts of SpecModel/Expand/Check.lean) must
+//     accept it — a rejection is a verdict on the implementation (CorrAs);
+//   - xexpand (acyclic graphs, full strict expansion): the model's `expandList` must produce exactly the
+//     abstraction of the implementation's output — a disagreement is a broken tie (Corr).
+func corrExpansion(c *Ctx, which string, w *refgraph.World, g *refgraph.Graph, in, out wire.V, o expOpts, cs interface{}, cyclic bool, project []string) {
+	if c.Driver == "" || !c.HasOp("xcheck") {
+		return
+	}
+	win := w.Clone()
+	win.Docs[w.Root] = in
+	wout := w.Clone()
+	wout.Docs[w.Root] = out
+	kinds := map[refgraph.Key]string{}
+	var keep []string
+	for k, kind := range g.KindOf {
+		kinds[k] = kind
+		if o.Skip && kind == "schema" {
+			keep = append(keep, k.String())
+		}
+	}
+	sort.Strings(keep)
+	var pairs, inTrees, outTrees []interface{}
+	trues := []bool{}
+	for _, ci := range refgraph.Children("swagger", in) {
+		co, ok := refgraph.Eval(out, ci.Path)
+		if !ok {
+			co = wire.NullV()
+		}
+		a := win.Abstract(w.Root, ci.Kind, ci.Val)
+		b := wout.Abstract(w.Root, ci.Kind, co)
+		if o.Continue && reachesDangling(g, a) {
+			// with ContinueOnError the property constrains (a) unresolvable schema $refs: left VERBATIM where they
+			// were - for a $ref imported from another document the verbatim text then reads relative to the
+			// root, so its target is no longer comparable - and (b) what does not depend on an unresolvable
+			// reference: only (b) is handed to the checker; (a) is checked textually by the oracle
+			continue
+		}
+		pairs = append(pairs, []interface{}{a.Wire(), b.Wire()})
+		inTrees = append(inTrees, a.Wire())
+		outTrees = append(outTrees, b.Wire())
+		trues = append(trues, true)
+	}
+	if len(pairs) == 0 {
+		return
+	}
+	W := win.AbstractWorld(kinds)
+	W2 := wout.AbstractWorld(kinds)
+	exp := map[string]interface{}{}
+	for _, p := range project {
+		switch p {
+		case "exp", "cuts":
+			exp[p] = trues
+		case "world":
+			exp[p] = true
+		}
+	}
+	want, _ := json.Marshal(exp)
+	if keep == nil {
+		keep = []string{}
+	}
+	c.CorrAs(map[string]interface{}{"op": "xcheck", "world": W, "world2": W2, "pairs": pairs, "keep": keep, "continue": o.Continue, "project": project},
+		string(want), "json", cs, which+":checker-rejects")
+	if !cyclic && !o.Skip && !o.Continue && len(g.Missing) == 0 && c.HasOp("xexpand") {
+		impl, _ := json.Marshal(map[string]interface{}{"trees": outTrees, "memo": []string{}})
+		c.Corr(map[string]interface{}{"op": "xexpand", "world": W, "trees": inTrees, "continue": false}, string(impl), "json", cs)
+	}
+}
+
+// reachesDangling: some reference reachable from the element designates a missing target.
+func reachesDangling(g *refgraph.Graph, a *refgraph.ATree) bool {
+	byName := map[string]refgraph.Key{}
+	for k := range g.KindOf {
+		byName[k.String()] = k
+	}
+	var start []string
+	a.Refs(&start)
+	seen := map[refgraph.Key]bool{}
+	var stack []refgraph.Key
+	for _, s := range start {
+		if k, ok := byName[s]; ok {
+			stack = append(stack, k)
+		}
+	}
+	for len(stack) > 0 {
+		k := stack[len(stack)-1]
+		stack = stack[:len(stack)-1]
+		if seen[k] {
+			continue
+		}
+		seen[k] = true
+		if g.Missing[k] {
+			return true
+		}
+		stack = append(stack, g.Edges[k]...)
+	}
+	return false
 }
 
 func runC02(c *Ctx) { runC02C03(c, "C02") }
